@@ -306,6 +306,10 @@ def m_vec_range_index(ex, st, callee, args):
             raise Inconclusive("symbolic slice bound")
         return c.as_long()
     lo, hi = 0, n
+    if "RangeFull" in callee or not isinstance(r, Adt):
+        if "RangeFull" not in callee:
+            raise Inconclusive("slice index %r" % (r,))
+        return [(None, ref)]
     if r.ty == "Range":
         lo, hi = conc(r.fields[0]), conc(r.fields[1])
     elif r.ty == "RangeTo":
@@ -367,6 +371,100 @@ def m_option_filter(ex, st, callee, args):
     return [(None, Invoke(fn, [args[1], Ref(key)], lambda st2, val: Forks([(val.e, v), (z3.Not(val.e), NONE)])))]
 
 
+def _seq_items(ex, st, v):
+    ref, seq = _vec_at(ex, st, v) if isinstance(v, Ref) else (None, v)
+    if ref is None:
+        raise Inconclusive("sequence by value %r" % (v,))
+    return [Ref(ref.cell, ref.path + (i,)) for i in range(len(seq.fields))]
+
+
+def m_slice_eq(ex, st, callee, args):
+    """<[T] as PartialEq>::eq / Vec eq: equal lengths and element-wise `T::eq` (the crate's own impl is run per pair)"""
+    from sym import Invoke
+    a, b = _seq_items(ex, st, args[0]), _seq_items(ex, st, args[1])
+    if len(a) != len(b):
+        return [(None, Sc("bool", z3.BoolVal(callee.endswith("::ne"))))]
+    m_ = re.search(r"\[(.*?)\]|Vec<(.*?)>", callee)
+    elem = (m_.group(1) or m_.group(2)) if m_ else None
+    fn = ex.resolver("<%s as PartialEq>::eq" % elem, 2) if elem else None
+    if fn is None:
+        raise Inconclusive("element equality for " + callee)
+
+    def step(i, acc):
+        if i == len(a):
+            r = z3.And(*acc) if acc else z3.BoolVal(True)
+            return Sc("bool", z3.Not(r) if callee.endswith("::ne") else r)
+        return Invoke(fn, [a[i], b[i]], lambda st2, val: step(i + 1, acc + [val.e]))
+    return [(None, step(0, []))]
+
+
+def m_gc_vec_eq(ex, st, callee, args):
+    """<Gc<GcCell<Vec<T>>> as PartialEq>::eq: the gc crate compares the pointees (GcCell compares its borrowed contents)"""
+    refs = []
+    for a_ in args[:2]:
+        g = _gc(ex, st, a_)
+        r = g.fields[0]
+        refs.append(Ref(r.cell, r.path + (0,)))
+    m_ = re.search(r"Vec<(.*)>>> as PartialEq", callee)
+    return m_slice_eq(ex, st, "<[%s] as PartialEq>::%s" % (m_.group(1), "ne" if callee.endswith("::ne") else "eq"), refs)
+
+
+def m_gc_ptr_eq(ex, st, callee, args):
+    a_, b_ = _gc(ex, st, args[0]), _gc(ex, st, args[1])
+    ra, rb = a_.fields[0], b_.fields[0]
+    return [(None, Sc("bool", z3.BoolVal((ra.cell, ra.path) == (rb.cell, rb.path))))]
+
+
+def m_as_slice(ex, st, callee, args):
+    return [(None, args[0])]
+
+
+def m_zip(ex, st, callee, args):
+    return [(None, Adt("ZipIter", None, [args[0], args[1]]))]
+
+
+def m_zip_all_any(ex, st, callee, args):
+    from sym import Invoke
+    from strmodels import _iter_items
+    z_ = args[0]
+    if not (isinstance(z_, Adt) and z_.ty == "ZipIter"):
+        z_ = _val(ex, st, z_)
+    if not (isinstance(z_, Adt) and z_.ty == "ZipIter"):
+        raise Inconclusive("zip adaptor %r" % (z_,))
+    xs, ys = _iter_items(ex, st, z_.fields[0]), _iter_items(ex, st, z_.fields[1])
+    pairs = list(zip(xs, ys))
+    fn = ex.closure_fn(callee)
+    if fn is None:
+        raise Inconclusive("no MIR item for the closure in " + callee)
+    env = args[1]
+    if ex.mf.func(fn).locals[1].strip().startswith("&") and not isinstance(env, Ref):
+        st.nframe += 1
+        st.cells[("tmp", st.nframe)] = env
+        env = Ref(("tmp", st.nframe))
+    is_any = "::any::<" in callee
+
+    def step(i, acc):
+        if i == len(pairs):
+            if not acc:
+                return Sc("bool", z3.BoolVal(not is_any))
+            return Sc("bool", z3.Or(*acc) if is_any else z3.And(*acc))
+        return Invoke(fn, [env, Adt("()", None, [pairs[i][0], pairs[i][1]])], lambda st2, val: step(i + 1, acc + [val.e]))
+    return [(None, step(0, []))]
+
+
+def m_unwrap_or_else(ex, st, callee, args):
+    from sym import Invoke
+    v = args[0]
+    if not (isinstance(v, Adt) and v.ty in ("Result", "Option")):
+        raise Inconclusive("unwrap_or_else on %r" % (v,))
+    if v.variant in ("Ok", "Some"):
+        return [(None, v.fields[0])]
+    fn = ex.closure_fn(callee)
+    if fn is None:
+        raise Inconclusive("no MIR item for the closure in " + callee)
+    return [(None, Invoke(fn, [args[1]] + ([v.fields[0]] if v.ty == "Result" else []), lambda st2, val: val))]
+
+
 def m_clone_structural(ex, st, callee, args):
     """Clone of a value whose model is an immutable tree (Option<..>, String, Rc handles: the handle is the value)"""
     return [(None, _val(ex, st, args[0], depth=1) if isinstance(args[0], Ref) else args[0])]
@@ -424,6 +522,13 @@ def install(m):
         (r"^<Rev<std::slice::Iter<'_, .*>> as IntoIterator>::into_iter$", m_iter_into_iter),
         (r"^<Rev<std::slice::Iter<'_, .*>> as Iterator>::next$", m_rev_next),
         (r"^Option::<.*>::filter::<", m_option_filter),
+        (r"^<\[.*\] as PartialEq>::(eq|ne)$|^<Vec<.*> as PartialEq>::(eq|ne)$|^core::slice::cmp::<impl PartialEq<\[.*\]> for \[.*\]>::(eq|ne)$", m_slice_eq),
+        (r"^<Gc<GcCell<Vec<.*>>> as PartialEq>::(eq|ne)$", m_gc_vec_eq),
+        (r"^Gc::<.*>::ptr_eq$", m_gc_ptr_eq),
+        (r"^Vec::<.*>::as_slice$", m_as_slice),
+        (r"^<std::slice::Iter<'_, .*> as Iterator>::zip::<", m_zip),
+        (r"^<Zip<.*> as Iterator>::(all|any)::<", m_zip_all_any),
+        (r"^(std::(result|option)::)?(Result|Option)::<.*>::unwrap_or_else::<", m_unwrap_or_else),
         (r"^Cell::<.*>::new$", m_cell_new),
         (r"^Cell::<.*>::get$", m_cell_get),
         (r"^Cell::<.*>::set$", m_cell_set),
